@@ -77,6 +77,12 @@ fn conv_err(e: (MessageType, DecodeError)) -> Dec {
 }
 
 fn offsets(input: &[u8], payload: &[u8]) -> (usize, usize) {
+    if payload.is_empty() {
+        // an empty payload has no position worth comparing (a static `&[]` is as good as
+        // `&input[k..k]`): canonical place = immediately before the PEC
+        let k = input.len().saturating_sub(1);
+        return (k, k);
+    }
     let base = input.as_ptr() as usize;
     let p = payload.as_ptr() as usize;
     if p >= base && p + payload.len() <= base + input.len() {
